@@ -75,6 +75,15 @@ CB.Gen.Encoding).  Subset extensions used there:
   and `as` from an unsigned type zero-extends whatever the target), `+ - * & | ^ <<` and unary `-` are the operations
   on the pattern (release semantics: wrapping); literals with a signed suffix (`0x2fi16`) and `let x: i16 = -1;`;
   a fixed array of words `[u8; 2]` (parameter type) is the tuple of its elements, `bytes[K]` with a literal K its component.
+Second unit of that file: the primitive conversions `impl<const LIMBS: usize> Uint<LIMBS> { from_u8, from_u16, from_u32,
+from_u64, from_word, from_wide_word }` of src/uint/from.rs (namespace CB.Gen.Encoding.Uint; the 64-bit configuration).
+Subset extensions used there:
+  `assert!(cond, "message");` at the START of a body (before any other statement): the function `f` is translated as if
+  the assertions held, and their conjunction becomes a second definition `f_asserts : <same parameters> → Bool` (emitted
+  with `f`, like the loop definitions) — "the call panics" is `f_asserts .. = false`; comparisons between limb counts
+  (`LIMBS >= 1`) are `decide`d on `Nat`; a function with assertions cannot be called from another translated function
+  (its panic would be lost), an `assert!` anywhere else is outside the subset;
+  `arr[i].0 = e` / `arr[i].0 op= e` (the word inside limb `i`): `arr[i] = Limb(e)` / `arr[i] = Limb(arr[i].0 op e)`.
 """
 import os, re, sys, json
 
@@ -343,6 +352,16 @@ class P:
         self.eat('op', '[')
         idx = self.expr()
         self.eat('op', ']')
+        if self.at('.') and self.peek(1) == ('num', 0, None) and self.peek(2)[0] == 'op' and self.peek(2)[1] in ASSIGN_OPS:
+            # `arr[i].0 op= e`: the word inside limb `i`
+            self.eat(); self.eat()
+            op = self.eat()[1]
+            rhs = self.expr()
+            self.eat('op', ';')
+            if op != '=':
+                rhs = ('bin', op[:-1], ('field', ('index', ('var', name), idx), 0), rhs)
+            stmts.append(('assign_idx', name, idx, '=', ('call', ['Limb'], [rhs])))
+            return True
         if not (self.peek()[0] == 'op' and self.peek()[1] in ASSIGN_OPS):
             self.i = save
             return False
@@ -483,6 +502,8 @@ WRAP = {'Limb': 'wrap:1', 'NonZero<Limb>': 'wrap:2'}
 # units whose functions are generic over a limb count: lean namespace -> name of the const parameter (first, explicit
 # `Nat` argument of every definition of the unit)
 GENERIC_NS = {}
+# (namespace, function) of the functions translated with an `<fn>_asserts` companion (their `assert!`s)
+ASSERTING = set()
 
 
 def ty_of(t, self_ty):
@@ -804,6 +825,9 @@ class Gen:
                 tb = 64
             if ta != tb:
                 raise Unsupported(f'operand types differ: {ta} {tb}')
+            if ta == 'nat' and op in ('==', '!=', '<', '>', '<=', '>='):
+                # a comparison between limb counts / indices (`assert!(LIMBS >= 1)`)
+                return f'(decide ({a} {dict([("==", "="), ("!=", "≠"), ("<", "<"), (">", ">"), ("<=", "≤"), (">=", "≥")])[op]} {b}))', 'bool'
             if ta == 'nat':
                 raise Unsupported('index arithmetic')
             if op in ('==', '!=', '<', '>', '<=', '>='):
@@ -888,6 +912,8 @@ class Gen:
         ns, sig = self.lookup(name, where)
         if sig is None:
             raise Unsupported('call to untranslated ' + name)
+        if (ns, name) in ASSERTING:
+            raise Unsupported('call to a function with assert! (' + name + ')')
         ptys, rty = sig
         if len(ptys) != len(args):
             raise Unsupported('arity ' + name)
@@ -1202,6 +1228,7 @@ class Gen:
         body = re.sub(r'//[^\n]*', '', body)
         body = re.sub(r'#\[[^\]]*\]', '', body)
         body = strip_debug_asserts(body)
+        body = self.take_asserts(body, env)
         pr = P(tokenize(body))
         stmts, final = pr.block()
         if pr.peek()[0] != 'eof':
@@ -1216,6 +1243,53 @@ class Gen:
             raise Unsupported(f'return type {ty} vs {rty}')
         lines.append(t)
         return lines
+
+    def take_asserts(self, body, env):
+        """`assert!(cond, "message");` statements at the start of a body -> removed from the text; their conjunction
+        becomes the auxiliary definition `<fn>_asserts : <parameters> → Bool` (env = the parameters at this point).
+        An `assert!` anywhere else is left in place (and is outside the subset: the function is not translated)."""
+        conds = []
+        ASSERTING.discard((self.ns, self.fname))
+        while True:
+            m = re.match(r'\s*assert\s*!\s*\(', body)
+            if not m:
+                break
+            depth, j, comma, instr = 1, m.end(), None, False
+            while depth and j < len(body):
+                ch = body[j]
+                if instr:
+                    if ch == '\\':
+                        j += 1
+                    elif ch == '"':
+                        instr = False
+                elif ch == '"':
+                    instr = True
+                elif ch in '([{':
+                    depth += 1
+                elif ch in ')]}':
+                    depth -= 1
+                elif ch == ',' and depth == 1 and comma is None:
+                    comma = j
+                j += 1
+            if depth:
+                raise Unsupported('unbalanced assert!')
+            m2 = re.match(r'\s*;', body[j:])
+            if not m2:
+                raise Unsupported('assert! used as an expression')
+            pr = P(tokenize(body[m.end():(comma if comma is not None else j - 1)]))
+            ce = pr.expr()
+            if pr.peek()[0] != 'eof':
+                raise Unsupported('assert! condition')
+            t, ty = self.ex(ce, env)
+            if ty != 'bool':
+                raise Unsupported('assert! condition of type ' + str(ty))
+            conds.append(t)
+            body = body[j + m2.end():]
+        if conds:
+            binders = ''.join(f'({ln} : {lean_ty(t)}) ' for ln, t in env.values())
+            self.aux.append(f'@[gen_defs] def {self.fname}_asserts {binders}: Bool :=\n  ' + ' && '.join(conds))
+            ASSERTING.add((self.ns, self.fname))
+        return body
 
     def fresh(self, v, env):
         used = {x[0] for x in env.values()}
@@ -1346,10 +1420,14 @@ FILES = [
         dict(key='hex', rel='src/uint/encoding.rs', ns='CB.Gen.Encoding', self_ty=None,
              desc='the constant-time hex decoder: decode_nibble (signed 16-bit arithmetic), decode_hex_byte',
              want=['decode_nibble', 'decode_hex_byte'], private=True),
+        dict(key='uint_from', rel=['src/uint/from.rs'], ns='CB.Gen.Encoding.Uint', self_ty='Uint', generic='LIMBS',
+             desc='impl<const LIMBS: usize> Uint<LIMBS>: the conversions from a primitive (64-bit configuration)',
+             want=['from_u8', 'from_u16', 'from_u32', 'from_u64', 'from_u128', 'from_word', 'from_wide_word']),
     ]),
 ]
 
 AUX = re.compile(r'\w+_loop\d+$')
+AUX = re.compile(AUX.pattern + r'|\w+_asserts$')     # the `assert!`s of a function stay with it, like its loops
 
 
 def read_last(path):
